@@ -209,6 +209,16 @@ func c16Positional(maxFull int) *Scenario {
 					zero[i] = reflect.Zero(kinds[k].T)
 				}
 				try("", zero, true)
+				// a handler already built keeps its behaviour when the FuncInfo it came from is changed and wrapped again
+				fi.AllowArray(false)
+				fi.SetStrict(false)
+				h2 := fi.Wrap()
+				try("["+strings.Join(base, ",")+"]", baseVals, true)
+				try("{"+fmt.Sprintf("%q:%s", names[0], base[0])+`,"zz":1}`, nil, false)
+				h = h2
+				try("["+strings.Join(base, ",")+"]", nil, false) // the new handler is object-only
+				fi.AllowArray(true)
+				try("["+strings.Join(base, ",")+"]", nil, false) // and stays so
 			}
 			// name lists of the wrong length, and the arity-0 form
 			rec := &recorder{}
